@@ -478,6 +478,9 @@ pub fn suite_assumptions(ctx: &Ctx, thorough: bool) {
         if twice != lower {
             ctx.violate("A.lower_idempotent", "to_lowercase is idempotent per char", inp(), twice, lower.clone());
         }
+        if lower.is_empty() {
+            ctx.violate("A.axiom_lower_nonempty", "to_lowercase never yields the empty string", inp(), lower.clone(), "non-empty".into());
+        }
         if !matches!(c, '-' | '_' | '.') && lower.chars().any(|x| matches!(x, '-' | '_' | '.')) {
             ctx.violate("A.lower_no_dash", "to_lowercase never produces - _ . from another char", inp(), lower.clone(), "no dash".into());
         }
